@@ -6,7 +6,7 @@ CONFIG = {
     "lean_sources": ["OasisModel/TxPool", "OasisModel/Proto.lean",
                      "OasisProofs/Helpers/TxPoolImpl.lean", "OasisProofs/Helpers/TxPoolImplOps.lean"],
     # implementation-level model: refinement theorems, built and axiom-audited with Props/C20.lean
-    "extra_theorem_files": [{"file": "OasisProofs/Props/C20Impl.lean", "namespace": "OasisProofs.C20Impl"}],
+    "extra_theorem_files": [{"file": "OasisProofs/Props/C20Impl.lean", "namespace": "OasisProofs.C20Impl"}, {"file": "OasisProofs/Props/C20Batch.lean", "namespace": "OasisProofs.C20Batch"}],
     "drivers": [
         {"name": "txpooldrv",
          "quick": ["-cases", "3000", "-ops", "40"],
